@@ -237,6 +237,6 @@ def subchecks(tier):
     big = tier == "thorough"
     return [
         Sub("pairs", make_body("pairs"), cases=cases_pairs, shards=16, exhaustive=True),
-        Sub("sequences", make_body("sequences"), strategy=strat_seq, n=20_000 if big else 800, shards=16 if big else 4),
-        Sub("interleaved", make_body("interleaved"), strategy=strat_interleaved, n=20_000 if big else 1000, shards=16 if big else 4),
+        Sub("sequences", make_body("sequences"), strategy=strat_seq, n=60_000 if big else 800, shards=16 if big else 4),
+        Sub("interleaved", make_body("interleaved"), strategy=strat_interleaved, n=60_000 if big else 1000, shards=16 if big else 4),
     ]
